@@ -422,6 +422,34 @@ impl Fm {
         self.expect(sink, op, &req, &resp, &want);
     }
 
+    /// The mutable accessors panic on a non-element (documented); the read-only ones see an
+    /// empty map there.
+    pub fn step_non_element(&mut self, sink: &mut Sink, l: usize, attr: bool, key: usize, val: Pay) {
+        let a = self.node(l);
+        let req = format!("entry_or_insert {} {} {} {}", kind(attr), l, key, val.wire());
+        let xot = &mut self.s.xot;
+        let vocab = &self.s.vocab;
+        let r = if attr {
+            let v = match &val { Pay::S(s) => s.clone(), _ => String::new() };
+            guarded(|| { let mut m = xot.attributes_mut(a); let _ = m.entry(vocab.name(key)).or_insert(v); })
+        } else {
+            let v = match &val { Pay::N(n) => vocab.ns(*n), _ => vocab.ns(0) };
+            guarded(|| { let mut m = xot.namespaces_mut(a); let _ = m.entry(vocab.prefix(key)).or_insert(v); })
+        };
+        let resp = if r.is_some() { "ok".to_string() } else { "panic".to_string() };
+        let resp = self.emit_fmap(sink, &req, resp);
+        if resp != "panic" {
+            sink.fail("C11", "C11:mutable-view-of-non-element:no-panic", &format!("{} answered {}", req, resp), &self.s.history);
+        }
+        // read-only views of a non-element: empty
+        let (n, e) = if attr { let m = self.s.xot.attributes(a); (m.len(), m.is_empty()) } else { let m = self.s.xot.namespaces(a); (m.len(), m.is_empty()) };
+        if n != 0 || !e {
+            sink.fail("C11", "C11:read-only-view-of-non-element:not-empty", &format!("node {}: len {} is_empty {}", l, n, e), &self.s.history);
+        }
+        let req = format!("map_full {} {}", kind(attr), l);
+        self.emit_fmap(sink, &req, format!("n={} e={} ", n, if e { 1 } else { 0 }));
+    }
+
     // ------------------------------------------------------------------------------------
     // reads
 
@@ -708,7 +736,7 @@ fn any_val(rng: &mut Rng, attr: bool) -> Pay {
 const OPS: &[(&str, usize)] = &[
     ("insert", 10), ("set", 4), ("remove", 6), ("unset", 3), ("clear", 1), ("new_append", 8), ("new_only", 3), ("append_known", 8),
     ("detach", 4), ("remove_node", 3), ("entry_or_insert", 4), ("entry_or_default", 2), ("entry_and_modify", 4),
-    ("entry_and_modify_or_insert", 4), ("entry_insert", 3), ("entry_remove", 3), ("get_mut_set", 4), ("noise", 3),
+    ("entry_and_modify_or_insert", 4), ("entry_insert", 3), ("entry_remove", 3), ("get_mut_set", 4), ("noise", 3), ("non_element", 1),
 ];
 
 fn pick_op(rng: &mut Rng) -> &'static str {
@@ -789,6 +817,16 @@ pub fn one_history(rng: &mut Rng, sink: &mut Sink, n_ops: usize) {
                 }
                 let n = *rng.pick(pool);
                 fm.step_unlink(sink, n, op == "remove_node");
+            }
+            "non_element" => {
+                let live = fm.s.live();
+                let cand: Vec<usize> = live.into_iter().filter(|&l| !fm.s.xot.is_element(fm.s.nodes[l])).collect();
+                if cand.is_empty() {
+                    continue;
+                }
+                let l = *rng.pick(&cand);
+                fm.step_non_element(sink, l, attr, key, val);
+                continue;
             }
             "noise" => {
                 // a normal child comes or goes: the views must not notice
